@@ -11,7 +11,8 @@
    WHICH inherited method hands back an object of the class is READ FROM THE SOURCE: the tables
    [wrapped_<Class>] of Generated/Anchors.v are the arguments of the [_wrap_methods([...])] calls; a method of the
    builtin base type that is not re-wrapped returns a bare builtin ([RPlain]).  Methods the classes define
-   themselves (Profile.__add__/__mul__/__iadd__, OrdinalBallot.__add__/__reversed__) are listed in [explicit].
+   themselves (Profile.__add__/__mul__/__iadd__, OrdinalBallot.__add__/__reversed__, remove_satisfied of the two
+   satisfaction profile classes) are listed in [explicit].
    copy.copy / copy.deepcopy / pickle go through __reduce_ex__ (class-specific __reduce__ or the default
    object protocol restoring __dict__) and the constructor-from-object copies every attribute of its argument:
    modelled as attribute-preserving (assumption, checked by the correspondence run only). *)
@@ -62,6 +63,7 @@ Definition smemb (s : string) (l : list string) : bool := existsb (String.eqb s)
 Definition explicit (c : nat) (name : string) : bool :=
   match c with
   | 5 => smemb name ["__add__"; "__reversed__"]
+  | 18 | 19 => smemb name ["remove_satisfied"]
   | _ => false
   end.
 
@@ -110,7 +112,15 @@ Inductive op :=
 | OMpSetitem (e : nat) (c : Z) | OSetdefault (e : nat) (c : Z) | OUpdateIter (es : list nat)
 | OUpdateMap (ecs : list (nat * Z)) | OAsMulti
 | OCtorVal (b : bool)        (* type(cur)(cur, ballot_validation=b): the one construction path that changes a flag *)
-| OInstMut (k : nat).        (* the linked Instance is emptied / refilled in place; the object is not touched *)
+| OInstMut (k : nat)         (* the linked Instance is emptied / refilled in place; the object is not touched *)
+| OAsSat (k : nat)           (* 0: cur.as_sat_profile(Cost_Sat)   1: SatisfactionProfile(profile=cur, sat_class=Cost_Sat) resp.
+                                SatisfactionMultiProfile(multiprofile=cur, ...) for a multiprofile
+                                2: SatisfactionMultiProfile(profile=cur, sat_class=Cost_Sat) *)
+| OMutate (name : string)    (* an attribute-neutral mutating method of the builtin base type, NON-profile classes only
+                                (profiles have their own, validating, mutators above) *)
+| OClear                     (* .clear() *)
+| OPop                       (* list profiles: .pop() *)
+| ORemoveSat.                (* SatisfactionProfile / SatisfactionMultiProfile .remove_satisfied(bounds, projects) *)
 
 (* ---- ballot validation ------------------------------------------------------------------------------- *)
 Definition validation_on (a : list nat) : bool := Nat.eqb (nth 1 a 0) 0.
@@ -197,6 +207,8 @@ Section Env.
     | OMpSetitem _ _ => "__setitem__" | OSetdefault _ _ => "setdefault" | OUpdateIter _ => "update"
     | OUpdateMap _ => "update" | OAsMulti => "as_multiprofile"
     | OCtorVal _ => "ctor(ballot_validation=...)" | OInstMut _ => "instance.clear/update"
+    | OAsSat _ => "as_sat_profile" | OMutate n => n | OClear => "clear" | OPop => "pop"
+    | ORemoveSat => "remove_satisfied"
     end.
 
   (* payload of the new container a deriving method computes (profiles only; [] elsewhere) *)
@@ -238,6 +250,16 @@ Section Env.
     | BDict => ["__ior__"]
     | BList => ["__iadd__"]
     | BCounter => ["__iadd__"; "__isub__"; "__ior__"; "__iand__"]
+    | _ => []
+    end.
+
+  (* mutating methods of the builtin base types that do not look at the election attributes *)
+  Definition mutator_names (c : nat) : list string :=
+    match base_of c with
+    | BSet => ["add"; "discard"; "update"]
+    | BDict => ["__setitem__"; "setdefault"; "update"; "pop"] ++ (if Nat.eqb c 5 then ["append"] else [])
+    | BList => ["append"; "extend"; "insert"]
+    | BCounter => ["append"; "update"; "__setitem__"]
     | _ => []
     end.
 
@@ -332,6 +354,34 @@ Section Env.
           if all_valid c a' p then RNew (mkObj c a' p) else RRaise cur
         else RRaise cur
     | OInstMut _ => RNone cur
+    | OAsSat k =>
+        (* the satisfaction profile is linked to the instance of the profile; sat_class id 1 = Cost_Sat *)
+        if is_list_profile c || is_multi_profile c then
+          let a' := [nth 0 a 0; 1] in
+          match k with
+          | 0 | 1 => RNew (mkObj (if is_list_profile c then 18 else 19) a' [])
+          | _ => (* extend_from_profile freezes every ballot: only mutable ballots can be frozen *)
+                 if forallb (fun ec => (2 <=? tag (fst ec)) && (tag (fst ec) <=? 5)) p
+                 then RNew (mkObj 19 a' []) else RRaise cur
+          end
+        else RRaise cur
+    | OMutate n =>
+        if is_list_profile c || is_multi_profile c then RRaise cur      (* not applicable, never generated *)
+        else if smemb n (mutator_names c) then RNone cur else RRaise cur
+    | OClear =>
+        match base_of c with
+        | BTuple | BNone => RRaise cur
+        | _ => RNone (with_payload cur [])
+        end
+    | OPop =>
+        if is_list_profile c then
+          match rev p with
+          | [] => RRaise cur
+          | _ :: r => RNone (with_payload cur (rev r))
+          end
+        else RRaise cur                                                   (* not applicable, never generated *)
+    | ORemoveSat =>
+        if Nat.eqb c 18 || Nat.eqb c 19 then RNew (mkObj c a []) else RRaise cur
     end.
 
   (* the driver of the correspondence run: a new object of the object's own class WITH THE SAME ATTRIBUTES
@@ -361,5 +411,6 @@ Definition promised_names (c : nat) : list string :=
   | BList => ["copy"; "__add__"; "__mul__"; "__rmul__"; "__getitem__"]
   | BCounter => ["copy"; "__add__"; "__sub__"; "__or__"; "__and__"; "__ror__"]
   | _ => []
-  end.
+  end
+  ++ (if Nat.eqb c 18 || Nat.eqb c 19 then ["remove_satisfied"] else []).
 Definition promised (c : nat) (name : string) : bool := smemb name (promised_names c).
